@@ -19,7 +19,7 @@ import (
 func init() {
 	Register(&Monitor{
 		ID: "C05",
-		Rule: "per case a value document (string-values incl. 1, ' 2 ', 10, 9, abc, '', NaN, -0, 1e3, equal pairs, split across nested markup) and operand pools of the four types (node-set variables of 0-4 nodes in document or reverse order, boundary/random doubles, numeric-lexical strings, both booleans); every ordered pair x 6 operators as '$l op $r', a sample also spelled with path operands; oracle = reference §3.4 cascade; " +
+		Rule: "per case a value document (string-values incl. 1, ' 2 ', 10, 9, abc, '', NaN, -0, 1e3, equal pairs, split across nested markup) and operand pools of the four types (node-set variables of 0-4 nodes in document or reverse order, boundary/random doubles, numeric-lexical strings, both booleans); every ordered pair x 6 operators as '$l op $r', a sample also spelled with path operands; oracle = reference §3.4 cascade; 16 comparisons per case placed inside a predicate over the value elements, with operands that mix absolute paths / literals with context-dependent parts (., position(), siblings, arithmetic, unions, filters, nested comparisons) against the model; " +
 			"library-only relations: L<R == R>L, L<=R == R>=L, = and != symmetric, singleton numeric trichotomy unless NaN, empty node-set vs non-boolean always false. distinct_nontrivial = distinct (left type, right type, operator, expected result, operand value classes)",
 		NCases: func(tier string) int { return map[string]int{"quick": 600, "thorough": 20000}[tier] },
 		Case:   c05Case,
@@ -242,6 +242,70 @@ func c05Case(r *evid.Run, tier string, idx int, g *rng.R) {
 			}
 		}
 	}
+	// comparisons inside predicates: evaluated once per context node, with operands that combine
+	// context-independent parts (absolute paths, literals) with context-dependent ones
+	if !big {
+		self := xast.Rel(xast.Step{Axis: "self", Test: xast.NodeT(), Abbrev: true})
+		abs := func() xast.Expr {
+			return xast.Abs(xast.S("child", xast.NameT("", "r")), xast.S("child", xast.NameT("", "v"), xast.N(float64(g.Range(1, len(vnodes))))))
+		}
+		dep := func() xast.Expr {
+			switch g.Intn(6) {
+			case 0:
+				return xast.Fn("position")
+			case 1:
+				return xast.Fn("string-length", self)
+			case 2:
+				return xast.Rel(xast.S("following-sibling", xast.NameT("", "v"), xast.N(1)))
+			case 3:
+				return xast.Rel(xast.S("child", xast.NameT("", "i")))
+			}
+			return self
+		}
+		var operand func(depth int) xast.Expr
+		operand = func(depth int) xast.Expr {
+			switch k := g.Intn(12); {
+			case k == 0:
+				return abs()
+			case k == 1:
+				return dep()
+			case k == 2:
+				return xast.Binary{Op: rng.Pick(g, []string{"+", "-", "*"}), L: abs(), R: dep()}
+			case k == 3:
+				return xast.Binary{Op: rng.Pick(g, []string{"+", "-"}), L: dep(), R: abs()}
+			case k == 4:
+				return xast.Binary{Op: "|", L: abs(), R: dep2(g, self)}
+			case k == 5:
+				return xast.Path{Head: xast.Paren{X: xast.Binary{Op: "|", L: abs(), R: dep2(g, self)}}, HPred: []xast.Expr{rng.Pick(g, []xast.Expr{xast.Fn("last"), xast.N(1)})}}
+			case k == 6 && depth < 1:
+				return xast.Paren{X: xast.Binary{Op: rng.Pick(g, []string{"=", "!=", "<"}), L: operand(depth + 1), R: operand(depth + 1)}}
+			case k == 7:
+				return xast.Neg{X: xast.Binary{Op: "+", L: abs(), R: dep()}}
+			case k == 8:
+				return xast.N(float64(g.Range(0, 12)))
+			case k == 9:
+				return xast.Lit{S: rng.Pick(g, comparisonValues)}
+			case k == 10:
+				return xast.Fn("concat", abs(), dep())
+			}
+			return xast.Fn("number", xast.Binary{Op: "+", L: abs(), R: dep()})
+		}
+		for i := 0; i < 16; i++ {
+			cmp := xast.Binary{Op: rng.Pick(g, []string{"=", "!=", "<", "<=", ">", ">="}), L: operand(0), R: operand(0)}
+			e := xast.Abs(xast.S("child", xast.NameT("", "r")), xast.S("child", xast.NameT("", "v"), cmp))
+			if v, ok := w.check(r, "in-predicate/"+cmp.Op, idx, d.Root, e, false); ok {
+				r.Tab("comparison", "in-predicate "+cmp.Op, 1)
+				r.Sig("inpred|"+xast.String(cmp)+"|"+fmt.Sprint(len(v.(refeval.NodeSet))), nontrivialSet(v, len(vnodes)+1))
+			}
+		}
+	}
+}
+
+func dep2(g *rng.R, self xast.Expr) xast.Expr {
+	if g.Bool() {
+		return self
+	}
+	return xast.Rel(xast.S("preceding-sibling", xast.NameT("", "v"), xast.N(1)))
 }
 
 func showOperand(v refeval.Value) string {
